@@ -2475,6 +2475,214 @@ def run_derived(ctx, lines, recs, collect=True, only=None, dseed=None):
 
 
 # ---------------------------------------------------------------------------
+# DISPATCH stream (round 5): which NumPy / BLAS routine `_inner_default` / `_norm_default`
+# select for which dtype class and size (translator tools/extract/weighting_dispatch.py ->
+# Gen/WeightingDispatch.lean, driver ops idispatch / ndispatch).  The routine the REAL code takes
+# is observed by spying on the entry points (np.dot / np.vdot / np.tensordot / np.linalg.norm via
+# a proxy for the module global `np` of npy_tensors, scipy's get_blas_funcs), together with the
+# operand order of vdot.  Oracle: exact Fraction reference of sum x conj(y) resp. sqrt(sum |x|^2).
+
+DISPATCH_DTYPES = ['float64', 'float32', 'int64', 'complex128', 'complex64']
+DISPATCH_STRATA = ['dispatch/{}/{}/{}'.format(op, dt, side) for op in ('inner', 'norm')
+                   for dt in DISPATCH_DTYPES for side in ('small', 'at-threshold', 'above')]
+
+
+class _LinalgSpy(object):
+    def __init__(self, calls):
+        self._calls = calls
+
+    def __getattr__(self, name):
+        return getattr(np.linalg, name)
+
+    def norm(self, *a, **kw):
+        self._calls.append(('linalgNorm', None))
+        return np.linalg.norm(*a, **kw)
+
+
+class _NPSpy(object):
+    def __init__(self, calls, xdata, ydata):
+        self._calls, self._x, self._y = calls, xdata, ydata
+        self.linalg = _LinalgSpy(calls)
+
+    def __getattr__(self, name):
+        return getattr(np, name)
+
+    def _order(self, a, b):
+        ax, ay = np.shares_memory(a, self._x), np.shares_memory(a, self._y)
+        bx, by = np.shares_memory(b, self._x), np.shares_memory(b, self._y)
+        if ax and by and not (ay or bx):
+            return '12'
+        if ay and bx and not (ax or by):
+            return '21'
+        return '??'
+
+    def dot(self, a, b, *r, **kw):
+        self._calls.append(('dot', self._order(a, b)))
+        return np.dot(a, b, *r, **kw)
+
+    def vdot(self, a, b):
+        self._calls.append(('vdot' + self._order(a, b), None))
+        return np.vdot(a, b)
+
+    def tensordot(self, a, b, *r, **kw):
+        self._calls.append(('tensordot', self._order(np.asarray(a), np.asarray(b))))
+        return np.tensordot(a, b, *r, **kw)
+
+
+def _spied(x, y, f):
+    """run f() with the spies installed; returns (outcome, calls)"""
+    import odl.space.npy_tensors as nt
+    import scipy.linalg
+    calls = []
+    real_np, real_gbf = nt.np, scipy.linalg.blas.get_blas_funcs
+
+    def gbf(names, *a, **kw):
+        if names == 'nrm2' or names == ('nrm2',):
+            calls.append(('nrm2', None))
+        return real_gbf(names, *a, **kw)
+    nt.np = _NPSpy(calls, x.data, y.data)
+    scipy.linalg.blas.get_blas_funcs = gbf
+    try:
+        r = outcome(f)
+    finally:
+        nt.np = real_np
+        scipy.linalg.blas.get_blas_funcs = real_gbf
+    return r, calls
+
+
+def dispatch_cases(ctx):
+    thr = threshold()
+    out = []
+    for dt in DISPATCH_DTYPES:
+        for side, n in (('small', ctx.rng.randint(2, 9)), ('at-threshold', thr),
+                        ('above', thr + 1)):
+            cplx = dt.startswith('complex')
+            la, lb = ctx.rng.choice([(2, 3), (3, 5), (1, 4), (4, 3)])
+            if cplx:
+                xp = [complex(ctx.rng.randint(-2, 2), ctx.rng.randint(-2, 2)) for _ in range(la)]
+                yp = [complex(ctx.rng.randint(-2, 2), ctx.rng.randint(-2, 2)) for _ in range(lb)]
+                xp[0], yp[0] = complex(1, 2), complex(2, -1)
+            else:
+                xp = [float(ctx.rng.randint(-3, 3)) for _ in range(la)]
+                yp = [float(ctx.rng.randint(-3, 3)) for _ in range(lb)]
+                xp[0], yp[0] = 2.0, -1.0
+            out.append({'dtype': dt, 'side': side, 'n': n, 'xp': xp, 'yp': yp,
+                        'shape2d': side != 'small' and ctx.rng.random() < 0.5 and n % 2 == 0})
+    return out
+
+
+def run_dispatch_case(ctx, c, lines, recs, collect=True):
+    import odl
+    problems = []
+    dt, n = c['dtype'], c['n']
+
+    def bad(what, detail):
+        problems.append((what, detail))
+        ctx.violation('dispatch {}/{} :: {}'.format(dt, c['side'], what), str(detail)[:400],
+                      {'dispatch': jsonable_c(c)})
+    cplx = dt.startswith('complex')
+    xp = [complex(*v) if isinstance(v, (list, tuple)) else v for v in c['xp']]
+    yp = [complex(*v) if isinstance(v, (list, tuple)) else v for v in c['yp']]
+    X = np.resize(np.asarray(xp), n).astype(dt)
+    Y = np.resize(np.asarray(yp), n).astype(dt)
+    shape = (2, n // 2) if c.get('shape2d') else (n,)
+    o = outcome(lambda: (lambda sp: (sp.element(X.reshape(shape)), sp.element(Y.reshape(shape))))(
+        odl.tensor_space(shape, dtype=dt)))
+    if o[0] != 'ok':
+        bad('construction', o)
+        return problems
+    x, y = o[1]
+    # exact references (small integers: every partial sum is exactly representable)
+    fx = [complex(v) for v in xp]
+    fy = [complex(v) for v in yp]
+    ref = 0
+    nrm = 0
+    for i in range(n):
+        a, b = fx[i % len(fx)], fy[i % len(fy)]
+        ref += a * b.conjugate()
+        nrm += a.real * a.real + a.imag * a.imag
+    r, calls = _spied(x, y, lambda: x.inner(y))
+    if r[0] != 'ok' or complex(r[1]) != ref:
+        bad('inner value', 'got {} want {!r}'.format(r, ref))
+    leaves = [k if k.startswith('vdot') else k for k, _ in calls]
+    orders = [o_ for k, o_ in calls if o_ is not None]
+    # (LinearSpace.inner evaluates self._inner twice when the space has a field: the same
+    # routine must be taken every time)
+    if len(set(leaves)) != 1 or any(o_ != '12' for o_ in orders):
+        bad('inner routine', 'observed calls {}'.format(calls))
+    elif collect:
+        lines.append('idispatch real={} size={} xp={} yp={}'.format(
+            0 if cplx else 1, n, cwire(xp), cwire(yp)))
+        recs.append((c, 'inner', leaves[0], complex(r[1]) if r[0] == 'ok' else r[0]))
+    r, calls = _spied(x, y, lambda: x.norm())
+    blas = dt in ('float32', 'float64', 'complex64', 'complex128') and n <= 2 ** 31 - 1
+    if r[0] != 'ok' or abs(float(r[1]) - math.sqrt(nrm)) > 1e-6 * math.sqrt(nrm) * (
+            1 if dt in ('float32', 'complex64') else 1e-6):
+        bad('norm value', 'got {} want {!r}'.format(r, math.sqrt(nrm)))
+    leaves = [k for k, _ in calls]
+    if len(set(leaves)) != 1:
+        bad('norm routine', 'observed calls {}'.format(calls))
+    elif collect:
+        lines.append('ndispatch blas={} real={} size={} xp={}'.format(
+            1 if blas else 0, 0 if cplx else 1, n, cwire(xp)))
+        recs.append((c, 'norm', leaves[0], float(r[1]) if r[0] == 'ok' else r[0]))
+    ctx.case(('dispatch', dt, c['side']), None)
+    return problems
+
+
+def jsonable_c(c):
+    out = dict(c)
+    out['xp'] = [[v.real, v.imag] if isinstance(v, complex) else v for v in c['xp']]
+    out['yp'] = [[v.real, v.imag] if isinstance(v, complex) else v for v in c['yp']]
+    return out
+
+
+def compare_dispatch(ctx, recs, outs):
+    for (c, op, leaf, val), ans in zip(recs, outs):
+        case = {'op': op + '-dispatch', 'dispatch': jsonable_c(c)}
+        if not ans.startswith('ok leaf='):
+            ctx.disagree(case, (leaf, val), ans)
+            continue
+        f = dict(t.split('=', 1) for t in ans.split()[1:])
+        if f['leaf'] != leaf:
+            ctx.disagree(case, 'routine taken by the code: ' + leaf,
+                         'routine selected by the extracted tree: ' + f['leaf'])
+            continue
+        if op == 'inner':
+            mr, mi = ([core.pfrac(u) for u in f['v'].split(':')] + [Fraction(0)])[:2]
+            if isinstance(val, str) or cfrac(val) != (mr, mi):
+                ctx.disagree(case, val, f['v'])
+                continue
+        else:
+            m = float(core.pfrac(f['v']))
+            tol = 1e-6 if c['dtype'] in ('float32', 'complex64') else 1e-12
+            if isinstance(val, str) or abs(m - val) > tol * max(abs(m), abs(val)):
+                ctx.disagree(case, val, m)
+                continue
+        ctx.hit('dispatch/{}/{}/{}'.format(op, c['dtype'], c['side']))
+
+
+def run_dispatch(ctx):
+    lines, recs = [], []
+    for c in dispatch_cases(ctx):
+        run_dispatch_case(ctx, c, lines, recs)
+    outs = core.run_driver('C02', lines)
+    compare_dispatch(ctx, recs, outs)
+
+
+def regenerate(ctx):
+    from extract import weighting_dispatch as wd
+    name = 'extract(_inner_default, _norm_default, THRESHOLD_* -> Gen/WeightingDispatch.lean)'
+    try:
+        changed = wd.regenerate()
+        ctx.extra['weighting_dispatch_tables'] = {k: v for k, v in wd.LAST.items()}
+        return [(name, True, 'regenerated' if changed else 'unchanged')]
+    except Exception as e:  # grammar no longer matches the source: broken obligation
+        return [(name, False, '{}: {}'.format(type(e).__name__, e))]
+
+
+
+# ---------------------------------------------------------------------------
 # HISTORY stream: spaces built from SHARED objects (one grid under several partitions, one
 # partition under several spaces, one weighting object under several spaces), queried
 # interleaved.  Every answer goes through the same oracle and model comparison as a freshly
@@ -3054,7 +3262,7 @@ def EXPECTED_BRANCHES(ctx):
         out.append('validation/reject/' + name)
         if has_neighbour:
             out.append('validation/accept/' + name)
-    return out + mag_strata() + CUSTOM_STRATA + WEIGHTOBJ_STRATA + DERIVED_STRATA
+    return out + mag_strata() + CUSTOM_STRATA + WEIGHTOBJ_STRATA + DERIVED_STRATA + DISPATCH_STRATA
 
 
 # ---------------------------------------------------------------------------
@@ -3088,6 +3296,7 @@ def run(ctx):
     outs = core.run_driver('C02', lines)
     compare(ctx, recs, outs)
     run_custom(ctx)
+    run_dispatch(ctx)
 
 
 def search(ctx, broken):
@@ -3100,6 +3309,8 @@ def search(ctx, broken):
         run_magnitude(ctx)
         for c in custom_zoo(ctx):
             run_custom_case(ctx, c, [], [], collect=False)
+        for c in dispatch_cases(ctx):
+            run_dispatch_case(ctx, c, [], [], collect=False)
         for rep in range(3):
             run_weightobj(ctx)
             run_derived(ctx, [], [], collect=False)
@@ -3117,6 +3328,11 @@ def search(ctx, broken):
 
 
 def replay(ctx, case):
+    if 'dispatch' in case:
+        before = len(ctx.violations)
+        pr = run_dispatch_case(ctx, case['dispatch'], [], [], collect=False)
+        del ctx.violations[before:]
+        return '; '.join('{}: {}'.format(*q) for q in pr[:3])[:600] if pr else None
     if 'weightobj' in case:
         before = len(ctx.violations)
         pr = run_weightobj(ctx, wseed=case['weightobj']['seed'])
